@@ -248,3 +248,30 @@ v("c06-gather-fail-fast", "C06", "CLEANUP-GATHER", E + "incremental/stream_item_
   "            await gather(*pending, return_exceptions=True)", "            await gather(*pending)")
 v("c06-abort-result-dropped", "C06", "ABORT-RESULT-USED", E + "incremental/work_queue.py",
   "        abort_result = stream.queue.abort(reason)\n        if is_awaitable(abort_result):\n            cancel_awaitables.append(abort_result)", "        stream.queue.abort(reason)")
+
+# -- C01 (second batch) -----------------------------------------------------------------------------
+v("c01-unfix-visited-after-recursion", "C01", "VISITED-BEFORE-RECURSE", V + "rules/defer_stream_directive_on_root_field.py",
+  "                    continue\n                visited_fragments.add(fragment_name)\n                fragment = fragments.get(fragment_name)",
+  "                    continue\n                fragment = fragments.get(fragment_name)")
+v("c01-unfix-validate-total", "C01", "VALIDATE-TOTAL", V + "rules/single_field_subscriptions.py",
+  "            except GraphQLError:\n", "            except KeyError:\n")
+v("c01-unfix-untrusted-positions", "C01", "UNTRUSTED-ATTR", "src/graphql/error/located_error.py",
+  "    else:\n        if not is_collection_of(positions, int):\n            positions = None  # not a collection of offsets, ignore it\n", "")
+v("c01-extensions-guard-dropped", "C01", "UNTRUSTED-ATTR", "src/graphql/error/graphql_error.py",
+  "            if isinstance(original_extensions, dict):\n                extensions = original_extensions",
+  "            if original_extensions:\n                extensions = original_extensions")
+v("c01-resolver-outside-try", "C01", "EXEC-WRAP", E + "executor.py",
+  "            # Note that contrary to the JavaScript implementation, we pass the context\n            # value as part of the resolve info.\n            result = resolve_fn(source, info, **args)\n",
+  "            pass\n")
+VARIANTS[-1]["edits"].append({"file": E + "executor.py", "old": "        # Get the resolve function, regardless of if its result is normal or abrupt\n        # (error).\n        try:\n",
+                              "new": "        result = resolve_fn(source, info)\n        try:\n"})
+v("c01-handler-narrowed", "C01", "EXEC-WRAP", E + "executor.py",
+  "        except Exception as raw_error:\n            self.handle_field_error(\n                raw_error,\n                return_type,\n                field_details_list,\n                path,\n            )\n            return None\n\n        return completed",
+  "        except GraphQLError as raw_error:\n            self.handle_field_error(\n                raw_error,\n                return_type,\n                field_details_list,\n                path,\n            )\n            return None\n\n        return completed")
+v("c01-parse-error-not-converted", "C01", "CONVERT", "src/graphql/graphql.py",
+  "    except GraphQLError as error:\n        return ExecutionResult(data=None, errors=[error])\n\n    if default_is_awaitable(document):",
+  "    except GraphQLSyntaxError as error:\n        return ExecutionResult(data=None, errors=[error])\n\n    if default_is_awaitable(document):")
+v("c01-parser-raises-value-error", "C01", "PARSE-RAISES", L + "parser.py",
+  "        raise GraphQLSyntaxError(\n            self._lexer.source,\n            token.start,\n            f\"Expected {get_token_kind_desc(kind)}, found {get_token_desc(token)}.\",\n        )",
+  "        raise ValueError(\n            f\"Expected {get_token_kind_desc(kind)}, found {get_token_desc(token)}.\",\n        )")
+v("c01-parser-table-typo", "C01", "PARSE-RAISES", L + "parser.py", '        "fragment": "fragment_definition",', '        "fragment": "fragment_definitions",')
